@@ -334,9 +334,13 @@ func (c *Client) Send(packet stanza.Packet) error {
 		// Acknowledgement requests and answers are not stanzas: they are neither held nor counted
 		_, isReq := packet.(stanza.SMRequest)
 		_, isAns := packet.(stanza.SMAnswer)
-		if !isReq && !isAns {
+		if q := c.Session.SMState.UnAckQueue; q != nil && !isReq && !isAns {
+			// The queue is not thread safe, and its order has to be the order on the wire:
+			// hold its lock while the stanza is queued and written.
+			q.Lock()
+			defer q.Unlock()
 			toStore := stanza.UnAckedStz{Stz: string(data)}
-			c.Session.SMState.UnAckQueue.Push(&toStore)
+			q.Push(&toStore)
 		}
 	}
 
@@ -376,8 +380,13 @@ func (c *Client) SendRaw(packet string) error {
 	// Store stanza as non-acked as part of stream management
 	// See https://xmpp.org/extensions/xep-0198.html#scenarios
 	if c.config.StreamManagementEnable {
-		toStore := stanza.UnAckedStz{Stz: packet}
-		c.Session.SMState.UnAckQueue.Push(&toStore)
+		if q := c.Session.SMState.UnAckQueue; q != nil {
+			// See Send: queue and write under the queue lock
+			q.Lock()
+			defer q.Unlock()
+			toStore := stanza.UnAckedStz{Stz: packet}
+			q.Push(&toStore)
+		}
 	}
 	return c.sendWithWriter(c.transport, []byte(packet))
 }
